@@ -142,6 +142,16 @@ def TopoB.wire (t : TopoB) (n q : Nat) : Option (Nat × Nat) :=
 /-- no wire of `n` leads into the protected zone -/
 def TopoB.outside (t : TopoB) (n : Nat) : Bool := t.wires.all (fun w => w.1.1 != n || !t.inB w.2.1)
 
+/-- `dst in self.dmz_port.ip_network` over a fixed interface list -/
+def inDmzL (ifs : List Iface) (a : Ip) : Bool :=
+  match ifs[dmzPort]? with
+  | some i => i.inNet a
+  | none => false
+
+/-- the second entry point the external-inbound / internal-outbound entry point selects for destination `a` -/
+def selE (ifs : List Iface) (e : FwEntry) (a : Ip) : FwEntry :=
+  if inDmzL ifs a then .dmzIn else (if e == .extIn then .intIn else .extOut)
+
 /-- a firewall guards the zone: for every arrival port, a frame addressed to a protected address is denied by the first list
 or by the list of the second entry point the code selects for that address (DMZ-outbound: by both candidates) -/
 def fwGuards (ba : List Ip) (s : Node W) : Bool :=
@@ -149,10 +159,7 @@ def fwGuards (ba : List Ip) (s : Node W) : Bool :=
     denyDstCheck ba (s.acls (entryAcl e)) ||
       match e with
       | .dmzOut => denyDstCheck ba (s.acls .extOut) && denyDstCheck ba (s.acls .intIn)
-      | _ => ba.all fun a =>
-          let dmz := match s.ifaces[dmzPort]? with | some i => i.inNet a | none => false
-          let e2 : FwEntry := if dmz then .dmzIn else (if e == .extIn then .intIn else .extOut)
-          denyDstCheck [a] (s.acls (entryAcl e2))
+      | _ => ba.all fun a => denyDstCheck [a] (s.acls (entryAcl (selE s.ifaces e a)))
 
 def ifaceClean (t : TopoB) (i : Iface) : Bool := !t.ba.contains i.ip
 
@@ -162,9 +169,9 @@ def certifyNodeB (t : TopoB) (n : Nat) (s : Node W) : Bool :=
   | .host => s.kind == .host && !t.inB n && t.outside n &&
       s.ifaces.all (fun i => ifaceClean t i && bindOK t.rtrIfs i.mac i.ip)
   | .switch => s.kind == .switch && (t.inB n || t.outside n)
-  | .rtr => s.kind == .router && s.ifaces.all (fun i => ifaceClean t i && t.rtrIfs.contains (i.mac, i.ip)) &&
+  | .rtr => s.kind == .router && s.ifaces.all (fun i => ifaceClean t i && t.rtrIfs.contains (i.mac, i.ip) && bindOK t.rtrIfs i.mac i.ip) &&
       (t.inB n || t.outside n || denyDstCheck t.ba (s.acls .router))
-  | .fw => s.kind == .firewall && s.ifaces.all (fun i => ifaceClean t i && t.rtrIfs.contains (i.mac, i.ip)) &&
+  | .fw => s.kind == .firewall && s.ifaces.all (fun i => ifaceClean t i && t.rtrIfs.contains (i.mac, i.ip) && bindOK t.rtrIfs i.mac i.ip) &&
       (t.inB n || t.outside n || fwGuards t.ba s)
   | .deaf => s.kind == .host && t.inB n &&
       s.ifaces.all (fun i => t.ba.contains i.ip && t.ba.contains i.bcastAddr)
